@@ -28,10 +28,21 @@ class _Norm(ast.NodeTransformer):
         return node
 
 
+class _CanonNames(ast.NodeTransformer):
+    def __init__(self):
+        self.names: dict = {}
+
+    def visit_Name(self, node):
+        if node.id not in self.names:
+            self.names[node.id] = f"v{len(self.names)}"
+        return ast.copy_location(ast.Name(id=self.names[node.id], ctx=node.ctx), node)
+
+
 def norm_body(f: FuncInfo) -> str:
     body = copy.deepcopy(f.node.body)
     mod = ast.Module(body=body, type_ignores=[])
     mod = _Norm().visit(mod)
+    mod = _CanonNames().visit(mod)
     ast.fix_missing_locations(mod)
     return ast.unparse(mod)
 
@@ -142,8 +153,11 @@ def run(ctx) -> None:
                 v = sn.ast.value
                 if isinstance(v, ast.Constant):
                     if sn in opt_stores:
-                        cts = controlling_tests(fcfg, sn)
-                        ok = v.value is True and any(lab == "t" and "len(" in ast.unparse(t.ast) and "== 1" in ast.unparse(t.ast) for t, lab in cts)
+                        from ..facts import Facts
+
+                        ffacts = Facts(a, FR, frd)
+                        lists = [n_.targets[0].id for n_ in walk_own(FR.node) if isinstance(n_, ast.Assign) and isinstance(n_.value, ast.ListComp) and "type(None)" in ast.unparse(n_.value) and isinstance(n_.targets[0], ast.Name)]
+                        ok = v.value is True and bool(lists) and ffacts.implied(sn.id, ast.parse(f"len({lists[0]}) == 1", mode="eval").body, True, within=[head.id])
                         rep.check("C19.R4", ok, FR, sn.ast, "optional is set only for a union with exactly one non-None member", "optional is set under the wrong condition")
                     continue
                 # a variable: it must be (re)defined on every path of the current iteration
@@ -156,7 +170,7 @@ def run(ctx) -> None:
                     rep.check("C19.R4", ok, FR, sn.ast, f"`{nm}` is computed afresh for every parameter", f"`{nm}` is not reassigned on every iteration (initialised once before the loop): its value leaks from one marked parameter to the next - a non-optional parameter after an Optional one becomes optional")
             # union detection and the error branch
             utests = [t for t in fcfg.live_nodes() if t.kind == "test" and "Union" in ast.unparse(t.ast)]
-            rep.check("C19.R4", bool(utests) and "UnionType" in ast.unparse(utests[0].ast) and "is Union" in ast.unparse(utests[0].ast), FR, utests[0].ast if utests else FR.node, "typing.Union and PEP 604 unions are both recognised", "a union spelling (typing.Union / X | None) is not recognised")
+            rep.check("C19.R4", bool(utests) and any("UnionType" in ast.unparse(t.ast) and "Union" in ast.unparse(t.ast).replace("UnionType", "") for t in utests), FR, utests[0].ast if utests else FR.node, "typing.Union and PEP 604 unions are both recognised", "a union spelling (typing.Union / X | None) is not recognised")
             raises = [n for n in fcfg.live_nodes() if n.kind == "stmt" and isinstance(n.ast, ast.Raise) and "TypeError" in ast.unparse(n.ast)]
             rep.check("C19.R4", bool(raises), FR, raises[0].ast if raises else FR.node, "other unions raise TypeError", "unions with several non-None members are accepted")
             filt = [c for c in walk_own(FR.node) if isinstance(c, ast.ListComp) and "type(None)" in ast.unparse(c)]
